@@ -48,6 +48,7 @@ var knownFuncsTxt string
 // Result describes what the pre-pass did.
 type Result struct {
 	Overlay  map[string][]byte // absolute file name -> transformed content (nil when nothing changed)
+	Renamed  map[string]string // declared name -> the known name it is taken to be (same scope, same signature, unique)
 	Unknown  []string          // functions of the tree that are not in known_funcs.txt
 	Inlined  []string          // "callee into caller (context)"
 	Removed  []string          // unknown functions removed after all their uses were inlined
@@ -57,18 +58,79 @@ type Result struct {
 
 func known() map[string]bool {
 	m := map[string]bool{}
+	for n := range knownSigs() {
+		m[n] = true
+	}
+	return m
+}
+
+// knownSigs: qualified name -> signature text ("" if the list carries none).
+func knownSigs() map[string]string {
+	m := map[string]string{}
 	for _, l := range strings.Split(knownFuncsTxt, "\n") {
-		l = strings.TrimSpace(l)
-		if l != "" && !strings.HasPrefix(l, "#") {
-			m[l] = true
+		l = strings.TrimRight(l, " \r")
+		if l == "" || strings.HasPrefix(l, "#") {
+			continue
+		}
+		parts := strings.Split(l, "\t")
+		sig := ""
+		if len(parts) >= 2 {
+			sig = parts[1]
+		}
+		m[strings.TrimSpace(parts[0])] = sig
+		if len(parts) >= 3 {
+			knownOrder[strings.TrimSpace(parts[0])] = parts[2]
 		}
 	}
 	return m
 }
 
+var knownOrder = map[string]string{}
+
+// declOrder: qualified name -> "file#index of the declaration in its file" (last declaredFuncs call).
+var declOrder map[string]string
+
+// sigText renders a function type without parameter names: "(context.Context, []string) (int, error)".
+func sigText(ft *ast.FuncType) string {
+	list := func(fl *ast.FieldList) string {
+		if fl == nil {
+			return ""
+		}
+		var ps []string
+		for _, f := range fl.List {
+			t := types.ExprString(f.Type)
+			n := len(f.Names)
+			if n == 0 {
+				n = 1
+			}
+			for i := 0; i < n; i++ {
+				ps = append(ps, t)
+			}
+		}
+		return strings.Join(ps, ", ")
+	}
+	return "(" + list(ft.Params) + ") (" + list(ft.Results) + ")"
+}
+
+// scope of a qualified name: the package and receiver part ("sugardb.(SugarDB)." / "internal.")
+func nameScope(q string) string {
+	i := strings.LastIndex(q, ".")
+	if i < 0 {
+		return ""
+	}
+	return q[:i+1]
+}
+
 // DeclaredFuncs parses (syntax only) every non-test .go file below root and returns the
 // qualified names of the declared functions and methods: "<rel dir>.Name" / "<rel dir>.(Recv).Name".
 func DeclaredFuncs(root string) (map[string][]string, error) {
+	m, _, err := declaredFuncs(root)
+	return m, err
+}
+
+func declaredFuncs(root string) (map[string][]string, map[string]string, error) {
+	sigs := map[string]string{}
+	declOrder = map[string]string{}
 	out := map[string][]string{} // rel dir -> names
 	fset := token.NewFileSet()
 	err := filepath.Walk(root, func(p string, fi os.FileInfo, err error) error {
@@ -91,14 +153,17 @@ func DeclaredFuncs(root string) (map[string][]string, error) {
 		}
 		rel, _ := filepath.Rel(root, filepath.Dir(p))
 		rel = filepath.ToSlash(rel)
-		for _, d := range f.Decls {
+		for i, d := range f.Decls {
 			if fd, ok := d.(*ast.FuncDecl); ok {
-				out[rel] = append(out[rel], qualName(rel, fd))
+				q := qualName(rel, fd)
+				out[rel] = append(out[rel], q)
+				sigs[q] = sigText(fd.Type)
+				declOrder[q] = fmt.Sprintf("%s#%04d", filepath.Base(p), i)
 			}
 		}
 		return nil
 	})
-	return out, err
+	return out, sigs, err
 }
 
 func recvBase(fd *ast.FuncDecl) string {
@@ -133,13 +198,15 @@ func qualName(rel string, fd *ast.FuncDecl) string {
 
 // EmitKnown prints the list for known_funcs.txt.
 func EmitKnown(root string) (string, error) {
-	m, err := DeclaredFuncs(root)
+	m, sigs, err := declaredFuncs(root)
 	if err != nil {
 		return "", err
 	}
 	var all []string
 	for _, ns := range m {
-		all = append(all, ns...)
+		for _, n := range ns {
+			all = append(all, n+"\t"+sigs[n]+"\t"+declOrder[n])
+		}
 	}
 	sort.Strings(all)
 	return "# functions and methods of the tree the rules were confirmed on (svcheck -emit-known-funcs)\n" + strings.Join(all, "\n") + "\n", nil
@@ -227,9 +294,60 @@ func (ps *pkgState) lineDirective(p token.Pos) string {
 func Run(root string, env []string) (*Result, error) {
 	res := &Result{}
 	kn := known()
-	decl, err := DeclaredFuncs(root)
+	ksig := knownSigs()
+	decl, dsig, err := declaredFuncs(root)
 	if err != nil {
 		return res, err
+	}
+	// renames: a known function that is no longer declared and exactly one undeclared-in-the-list
+	// function of the same package/receiver with the same signature (and vice versa)
+	declared := map[string]bool{}
+	for _, names := range decl {
+		for _, n := range names {
+			declared[n] = true
+		}
+	}
+	missingBy := map[string][]string{} // scope|sig -> known names that disappeared
+	for n, sg := range ksig {
+		if !declared[n] && sg != "" {
+			k := nameScope(n) + "|" + sg
+			missingBy[k] = append(missingBy[k], n)
+		}
+	}
+	newBy := map[string][]string{}
+	for n := range declared {
+		if !kn[n] {
+			k := nameScope(n) + "|" + dsig[n]
+			newBy[k] = append(newBy[k], n)
+		}
+	}
+	for k, olds := range missingBy {
+		news := newBy[k]
+		if len(olds) != len(news) || len(olds) == 0 {
+			continue
+		}
+		if len(olds) > 1 {
+			// several functions of one signature renamed at once: pair them by file and declaration order
+			sort.Slice(olds, func(i, j int) bool { return knownOrder[olds[i]] < knownOrder[olds[j]] })
+			sort.Slice(news, func(i, j int) bool { return declOrder[news[i]] < declOrder[news[j]] })
+			ok := true
+			for i := range olds {
+				fo, fn := knownOrder[olds[i]], declOrder[news[i]]
+				if fo == "" || fn == "" || fo[:strings.Index(fo, "#")+1] != fn[:strings.Index(fn, "#")+1] {
+					ok = false
+				}
+			}
+			if !ok {
+				continue
+			}
+		}
+		for i := range olds {
+			if res.Renamed == nil {
+				res.Renamed = map[string]string{}
+			}
+			res.Renamed[news[i]] = olds[i]
+			kn[news[i]] = true
+		}
 	}
 	unknownIn := map[string]map[string]bool{} // rel dir -> qualified names
 	for rel, names := range decl {
